@@ -1,6 +1,7 @@
 /-
-  Obligation: the operator names of ldmodel/operators.go and the dispatch in doOp / matchAny /
-  clauseMatchesContext are exactly those of the model (Properties/C04: `opNames`, plus segmentMatch).
+  Obligation: the operator names of ldmodel/operators.go, and the set of operators the evaluation
+  package dispatches on (wherever the dispatch lives), are exactly those of the model
+  (Properties/C04: `opNames`, plus segmentMatch).
 -/
 import LDEval.Generated.Facts
 import LDEval.Obligations.Expected
@@ -9,12 +10,14 @@ import LDEval.Properties.C04
 namespace LD.Obligations
 
 theorem operator_constants : Generated.operatorConstants = Expected.operatorConstants := rfl
-theorem doOp_cases : Generated.doOpCases = Expected.doOpCases := rfl
-theorem special_operators : Generated.specialOperators = Expected.specialOperators := rfl
+theorem operators_dispatched : Generated.operatorsDispatched = Expected.operatorsDispatched := rfl
 /-- Every operator the Go dispatch knows is one the model's table knows, and vice versa. -/
-theorem dispatch_covers_model : ∀ op ∈ C04.opNames, op ∈ "in" :: Generated.doOpCases := by decide
-theorem model_covers_dispatch : ∀ op ∈ Generated.doOpCases, op ∈ C04.opNames := by decide
+theorem dispatch_covers_model : ∀ op ∈ C04.opNames, op ∈ Generated.operatorsDispatched := by decide
+theorem model_covers_dispatch :
+    ∀ op ∈ Generated.operatorsDispatched, op ∈ "segmentMatch" :: C04.opNames := by decide
 theorem all_constants_dispatched :
-    ∀ p ∈ Generated.operatorConstants, p.2 ∈ "segmentMatch" :: "in" :: Generated.doOpCases := by decide
+    ∀ p ∈ Generated.operatorConstants, p.2 ∈ Generated.operatorsDispatched := by decide
+theorem only_constants_dispatched :
+    ∀ op ∈ Generated.operatorsDispatched, op ∈ Generated.operatorConstants.map (·.2) := by decide
 
 end LD.Obligations
